@@ -52,6 +52,8 @@ typedef struct {
 	chain_t blk;        // chain of the open Block (stream kinds) / the fixed chain (raw, block)
 	chain_t curfull;    // `cur` parsed in place (its option pointers are valid)
 	bool block_open;    // stream kinds: input arrived since the last Block end
+	bool hdr_started;   // single-threaded stream kinds: a `p` call has started (and at least partly written) the header of
+	                    // the next Block although it has not taken input yet; the chain of that Block is fixed from then on
 	lzma_ret cur_init;  // what initialising a Block with `cur` answers (probed on a scratch coder when an update was accepted):
 	                    // a mid-Block update validates only what it uses, so an unusable chain (e.g. misaligned BCJ
 	                    // start_offset) is found out when the next Block is started
@@ -603,8 +605,11 @@ static void run_case(char **tok, int ntok)
 			// history of expected Block boundaries
 			if (is_stream_kind(&c) && used > 0) {
 				if (!c.block_open) {
-					c.block_open = true; c.blk = c.cur;
-					if (!chain_header_string(&c.curfull, c.blkf, sizeof(c.blkf))) c.blkf[0] = 0;
+					c.block_open = true;
+					if (!c.hdr_started) {
+						c.blk = c.cur;
+						if (!chain_header_string(&c.curfull, c.blkf, sizeof(c.blkf))) c.blkf[0] = 0;
+					}
 				}
 				c.since += used;
 				if (c.kind == K_MT) {
@@ -616,6 +621,17 @@ static void run_case(char **tok, int ntok)
 				}
 			}
 			const chain_t *eff = (!is_stream_kind(&c) || c.block_open) ? &c.blk : &c.cur;
+			// a single call with input and a tiny output window on an encoder that is between Blocks starts the next Block:
+			// its header is made (and partly written) with the chain in force NOW
+			if (kindc == 'p' && (c.kind == K_STREAM || c.kind == K_EASY) && r == LZMA_OK && dn > 0 && used == 0
+					&& !c.block_open && !c.hdr_started && c.output.n > 12) {
+				c.hdr_started = true;
+				c.blk = c.cur;
+				if (!chain_header_string(&c.curfull, c.blkf, sizeof(c.blkf))) c.blkf[0] = 0;
+			}
+			const chain_t *eff0 = eff;
+			if (c.hdr_started) eff = &c.blk;
+			(void)eff0;
 			const bool nonflushable = eff->has_lzma1 || eff->has_bcj;
 			if (r == LZMA_STREAM_END && a != LZMA_RUN) {
 				if (a == LZMA_SYNC_FLUSH) {
@@ -631,6 +647,7 @@ static void run_case(char **tok, int ntok)
 					// a Block boundary
 					if (is_stream_kind(&c) && c.since > 0) { expect_block(&c, c.since); c.since = 0; }
 					c.block_open = false;
+					c.hdr_started = false;
 					if (a == LZMA_FINISH) {
 						finished = true;
 					} else {
